@@ -56,34 +56,37 @@ def select(scripts, n, rng, want_runs):
 def run(ctx):
     rng = random.Random(ctx.seed)
     T = ctx.thorough
-    # ------------------------------------------------------------------ M
-    m1 = ctx.model_check("Delta", "Delta_mc.cfg", timeout=1800, defines=defs(P2, ctx.pick(3, 4), 3, "tree", False))
+    # ------------------------------------------------------------------ M (+ script generation)
+    # the generating runs are model-checking runs (invariants and action properties are checked
+    # while the scripts are printed); thorough adds deeper runs without printing
+    def gen(cfg, d, **kw):
+        g = ctx.tlc("Delta", cfg, timeout=3000, defines=d, **kw)
+        if not g.ok:
+            raise vk.Inconclusive("model %s does not satisfy its properties (%s); see %s" % (
+                cfg, g.invariant or g.error or "deadlock", g.log))
+        return g
+
+    families = []
+    m1 = gen("Delta_mc.cfg", defs(P2, 3, 3, "tree", True))
+    families.append(("core", m1.printed("SCRIPT"), ctx.pick(90, 900), 3))
+    g = gen("Delta_fallback.cfg", defs(P2, 2, 3, "atomic", True))
+    families.append(("fallback", g.printed("SCRIPT"), ctx.pick(30, 500), 3))
+    g = gen("Delta_ignore.cfg", defs(PIG3 if T else PIG, 3, ctx.pick(2, 3), "tree", True))
+    families.append(("ignore", g.printed("SCRIPT"), ctx.pick(20, 300), ctx.pick(2, 3)))
     if T:
+        m1 = ctx.model_check("Delta", "Delta_mc.cfg", timeout=3000, defines=defs(P2, 4, 3, "tree", False))
         ctx.model_check("Delta", "Delta_mc.cfg", timeout=3000, defines=defs(P3, 4, 3, "atomic", False))
-    ctx.model_check("Delta", "Delta_fallback.cfg", timeout=1800, defines=defs(P2, 2, ctx.pick(2, 3), "atomic", False))
-    ctx.model_check("Delta", "Delta_ignore.cfg", timeout=1800, defines=defs(PIG, ctx.pick(3, 4), 3, "tree", False))
+        ctx.model_check("Delta", "Delta_ignore.cfg", timeout=3000, defines=defs(PIG, 4, 3, "tree", False))
+        g = ctx.tlc("Delta", "Delta_mc.cfg", timeout=3000, count=False, simulate="num=700", depth=11, seed=ctx.seed,
+                    defines=defs(P3, 6, 5, "atomic", True))
+        if not g.ok:
+            raise vk.Inconclusive("simulation failed: %s" % g.log)
+        families.append(("sim3", g.printed("SCRIPT"), 700, 4))
     # the strict property must fail in the ignore family (the named deviation is reachable)
-    res = ctx.tlc("Delta", "Delta_ignore_strict.cfg", timeout=1800, count=False, defines=defs(PIG, 3, 2, "tree", False),
-                  name="tlc_strict")
+    res = ctx.tlc("Delta", "Delta_ignore_strict.cfg", timeout=1800, count=False, defines=defs(PIG, 3, 2, "tree", False))
     if res.invariant != "BranchViewsStrict":
         raise vk.Inconclusive("the ignore-file deviation is not reachable in the model (vacuous): %s" % res.log)
 
-    # ------------------------------------------------------------------ R: scripts
-    nq = lambda q, t: ctx.pick(q, t)
-    families = []
-    if not T:
-        g = ctx.tlc("Delta", "Delta_mc.cfg", timeout=1800, count=False, defines=defs(P2, 3, 3, "tree", True), name="tlc_gen")
-        families.append(("core", g.printed("SCRIPT"), 110, 3))
-    else:
-        g = ctx.tlc("Delta", "Delta_mc.cfg", timeout=1800, count=False, defines=defs(P2, 3, 3, "tree", True), name="tlc_gen")
-        families.append(("core", g.printed("SCRIPT"), 900, 3))
-        g = ctx.tlc("Delta", "Delta_mc.cfg", timeout=3000, count=False, simulate="num=700", depth=11, seed=ctx.seed,
-                    defines=defs(P3, 6, 5, "atomic", True), name="tlc_gen")
-        families.append(("sim3", g.printed("SCRIPT"), 700, 5))
-    g = ctx.tlc("Delta", "Delta_fallback.cfg", timeout=1800, count=False, defines=defs(P2, 2, 3, "atomic", True), name="tlc_gen")
-    families.append(("fallback", g.printed("SCRIPT"), nq(40, 500), 3))
-    g = ctx.tlc("Delta", "Delta_ignore.cfg", timeout=1800, count=False, defines=defs(PIG3 if T else PIG, 3, 2, "tree", True), name="tlc_gen")
-    families.append(("ignore", g.printed("SCRIPT"), nq(25, 300), 2))
     scripts = []
     fam_of = []
     total_printed = 0
